@@ -90,7 +90,7 @@ Describe(ev, run, E) ==
    prints and returns TRUE), a failing group does not stop the validation. *)
 GroupCheck(ev) ==
     LET g   == <<ev.sz, ev.n, ev.p, ev.c>>
-        als == AlSeq(ev.tier, ev.kid, ev.n, ev.p, ev.c)
+        als == AlSeq(ev.tier, ev.kid, ev.sz, ev.n, ev.p, ev.c)
         shapeBad == { r \in 1 .. Len(ev.runs) : ~ RunShapeOK(ev, ev.runs[r], r, als) }
     IN  /\ IF Mode = "full" => (ev.tier = Tier /\ ev.kid = Kid /\ g \in PartGroups) THEN TRUE
            ELSE Msg("INFRA", "group-not-in-case-space", GroupStr(ev))
